@@ -23,6 +23,44 @@ CHECKS = {
     ),
 }
 
+_DS_NOTE = ("Trusted: TLC, the direct decoders (numpy / flatbuffers accessors / tf.io) used to project shard files, "
+            "hashlib/xxhash used to resolve recorded digests. Exhaustive for the small constants in the evidence "
+            "(<=3 sessions, <=5 writes, directories {root, s, s/t, fresh writer dirs}); longer histories are "
+            "sampled by TLC simulation and replayed on fb, npz and tfrec datasets.")
+_DS_TECH = "TLA+ model checking (TLC) + replay of TLC behaviours on real datasets + TLC evaluation of the property predicates on projected states"
+
+
+def _ds(text, ref):
+    return dict(engine="Dataset.tla", category="model_checking", text=text, design_ref=ref, note=_DS_NOTE,
+                technique=_DS_TECH)
+
+
+CHECKS.update({
+    "C04": _ds("C04_Exact of Dataset.tla is an invariant of every quiescent state of all session histories within the "
+               "bounds (root / nested / reused sub-directories, multi-writer calls, reopen or keep the handle); "
+               "TLC-generated histories are replayed on real datasets and the same TLA+ predicate is evaluated by "
+               "TLC on the state projected from the directory (example counts obtained by decoding every shard "
+               "file directly) and the live handle; projected state = specification state at every quiescent point.",
+               "DESIGN.md 3.1, 4.2, 5/C04"),
+    "C08": _ds("C08_AppendOnly (every split reads back exactly the committed ids) and NoSessionFails are invariants "
+               "of Dataset.tla; replayed histories must not raise, the real reader's output is judged by TLC "
+               "(R08), and Dataset.create on an existing dataset must raise and leave every byte unchanged.",
+               "DESIGN.md 3.1, 4.2, 5/C08"),
+    "C10": _ds("C10_Size (1..EPS examples per listed shard; within a session/split a short shard is followed by "
+               "another one only across a metadata change) checked by TLC for EPS in {1,2,3} with metadata "
+               "changes and rejected writes at every position; same predicate evaluated on projected real states.",
+               "DESIGN.md 3.1, 5/C10"),
+    "C11": _ds("C11_Label with the caller's metadata modelled as a mutable object (MutateCaller between writes); "
+               "copy semantics satisfies it, alias semantics (the repaired defect D3) violates it in the model; "
+               "replays pass one dict mutated in place and TLC judges the projected real states.",
+               "DESIGN.md 3.1, 5/C11"),
+    "C18": _ds("C18_AllOrNothing: rejected writes (shape violations, encoder failures after the TFRecord file was "
+               "opened) at every position relative to size and metadata roll-overs leave read-back and counts "
+               "unchanged, later valid writes are accepted, shape violations are always rejected; model checked "
+               "and judged on projected real states of fb, npz and tfrec datasets.",
+               "DESIGN.md 3.1, 5/C18"),
+})
+
 NOT_YET = {}
 
 ALL = [f"C{i:02d}" for i in range(1, 21)]
